@@ -274,6 +274,55 @@ sleep %d.milliseconds
 println "end"
 `, Pick(r, []int{1, 10, 3000}), Pick(r, []int{2, 500}), Pick(r, []int{1, 100, 60000}), Pick(r, []int{0, 5, 200}))
 	}},
+	{"waitgroup_start_end_race", func(r *Rand) string {
+		// starts and ends of one wait group from different threads at the same time, the
+		// counter hovering around zero; an end at zero is an Elk error (caught), never a crash
+		starters, enders, n := r.Range(1, 2), r.Range(1, 3), r.Range(1, 5)
+		var b strings.Builder
+		b.WriteString(`using Std::Sync::WaitGroup
+def starter(wg: WaitGroup, n: Int, done: WaitGroup)
+  i := 0
+  while i < n
+    wg.start
+    i = i + 1
+  end
+  done.end
+end
+def ender(wg: WaitGroup, n: Int, done: WaitGroup)
+  ended := 0
+  tries := 0
+  while ended < n && tries < 80
+    tries = tries + 1
+    do
+      wg.end
+      ended = ended + 1
+    catch Error() as e
+      ended = ended + 0
+    end
+  end
+  done.end
+end
+wg := WaitGroup()
+`)
+		fmt.Fprintf(&b, "done := WaitGroup(%d)\n", starters+enders)
+		for i := 0; i < starters; i++ {
+			fmt.Fprintf(&b, "go starter(wg, %d, done)\n", n*enders)
+		}
+		for i := 0; i < enders; i++ {
+			fmt.Fprintf(&b, "go ender(wg, %d, done)\n", n*starters)
+		}
+		b.WriteString("done.wait\nprintln \"end\"\n")
+		return b.String()
+	}},
+	{"once_memo_concurrent", func(r *Rand) string {
+		var b strings.Builder
+		fmt.Fprintf(&b, "using Std::Sync::*\nom := Once.memo ->\n  k := 0\n  while k < %d\n    k = k + 1\n  end\n  40 + 2\nend\nwg := WaitGroup(%d)\n", Pick(r, []int{0, 5, 60}), 3)
+		for i := 1; i <= 3; i++ {
+			fmt.Fprintf(&b, "go\n  println \"m%d=${om() + 1}\"\n  wg.end\nend\n", i)
+		}
+		b.WriteString("wg.wait\nprintln \"end\"\n")
+		return b.String()
+	}},
 	{"select_closing", func(r *Rand) string {
 		return fmt.Sprintf(`using Std::Sync::WaitGroup
 cha := Channel::[Int](%d)
